@@ -49,8 +49,8 @@ def driver_stage(tier, v, d):
     bfirst = tlc("MCDrvSignals", "MCDrvSignalsBackendFirst.cfg", cwd=CORE, workers=NPROC)
     if bfirst.rc != 12 or bfirst.violated != "InvAfterTeardown":
         raise Broken("MCDrvSignals: destroying the backend before the handler object should violate InvAfterTeardown: rc=%s %s" % (bfirst.rc, bfirst.violated))
-    if len(scen) != 79:
-        raise Broken("MCDrvSignals produced %d scenarios (79 expected)" % len(scen))
+    if len(scen) != 155:
+        raise Broken("MCDrvSignals produced %d scenarios (155 expected)" % len(scen))
     exe = targets.get("h_drv_asan" if tier == "thorough" else "h_drv")
     cases = []
     for i, sc in enumerate(scen):
@@ -61,7 +61,8 @@ def driver_stage(tier, v, d):
             ans = "status 0 scripted\nprimal auto\npoll 2\n"
             if sc["nsig"]:
                 ans += "sig %s %s %d\n" % (sc["where"], sc["sig"], sc["nsig"])
-            cases.append({"id": len(cases), "model": DRV_MODEL, "answer": ans, "opts": opts, "scenario": sc})
+            cases.append({"id": len(cases), "model": DRV_MODEL, "answer": ans, "opts": opts, "scenario": sc,
+                          "ignore_signals": sc["inherit"] == "ignored"})
     results = drv.run_cases(exe, PID, cases, timeout=60)
     lines = []
     for c, r in zip(cases, results):
@@ -92,7 +93,7 @@ def driver_stage(tier, v, d):
         c, r = cases[b["id"]], results[b["id"]]
         sc = c["scenario"]
         why = "+".join(sorted(b["why"]))
-        key = "drv:%s:%s@%s" % (why, sc["mode"], sc["where"] if sc["nsig"] else "-")
+        key = "drv:%s:%s@%s%s" % (why, sc["mode"], sc["where"] if sc["nsig"] else "-", "/ignored-at-start" if sc["inherit"] == "ignored" else "")
         evs = lines[b["line"] - 1]["ev"]
         v.violation(key, "driver run (options %s; %d x SIG%s arriving in '%s'): %s at event %d of [%s] (state before: %s); exit status %s, stderr: %s"
                     % (" ".join(c["opts"]) or "none", sc["nsig"], sc["sig"], sc["where"], why, b["at"],
